@@ -1011,6 +1011,11 @@ class _ColumnsParsedFmt:
             result.min_w = -1
             result.max_w = -1
         elif width_fmt:
+            if width_fmt.endswith(')') and '(' in width_fmt:
+                # "3-10(7)": fmt string reported by a printed table contains
+                # actual width of the column. It's just an information, the
+                # actual width is to be detected again using actual records.
+                width_fmt = width_fmt[:width_fmt.index('(')].strip()
             chunks = width_fmt.split('-')
             if len(chunks) > 2:
                 raise ValueError(f"Invalid width range: '{width_fmt}'")
